@@ -100,3 +100,72 @@ package pair
 //@   ensures inv: setupInv(setup)
 //@   ensures stored: dbStep(setup.database)
 //@   ensures answered: err == nil ==> out != nil
+
+// ---------------------------------------------------------------- pair-verify session and controller (C03, C13)
+
+//@ func (s *VerifySession) GenerateSharedKeyWithOtherPublicKey(otherPublicKey)
+//@   requires s != nil
+//@   modifies s.OtherPublicKey, s.SharedKey
+//@   ensures seq(s.OtherPublicKey) == seq(otherPublicKey) && seq(s.SharedKey) == x25519(seq(s.PrivateKey), seq(otherPublicKey))
+
+//@ func (s *VerifySession) SetupEncryptionKey(salt, info) (err)
+//@   requires s != nil
+//@   modifies s.EncryptionKey
+//@   ensures err == nil && seq(s.EncryptionKey) == hkdf(old(seq(s.SharedKey)), old(seq(salt)), old(seq(info)))
+
+//@ func NewVerifySession() (s)
+//@   ensures fresh(s) && seq(s.PublicKey) == x25519_base(seq(s.PrivateKey))
+
+// In state StartResponse (2) the session holds this exchange's controller key A, the shared secret X25519(priv, A) and
+// the message key derived from it; B = X25519_base(priv) always.
+//@ pred vsessKeyed(vs) = seq(vs.SharedKey) == x25519(seq(vs.PrivateKey), seq(vs.OtherPublicKey)) &&
+//@      seq(vs.EncryptionKey) == hkdf(seq(vs.SharedKey), seq("Pair-Verify-Encrypt-Salt"), seq("Pair-Verify-Encrypt-Info"))
+//@ pred verifyInv(v) = v != nil && v.session != nil && v.database != nil && v.context != nil &&
+//@      seq(v.session.PublicKey) == x25519_base(seq(v.session.PrivateKey)) &&
+//@      (v.step == 0 || v.step == 2) && (v.step == 2 ==> vsessKeyed(v.session))
+//@ typeinv verifyInv
+//@ abstraction pvshared(v) = seq(v.session.SharedKey)
+
+//@ func NewVerifyServerController(database, context) (v)
+//@   requires database != nil && context != nil
+//@   ensures fresh(v) && verifyInv(v)
+
+//@ func (verify *VerifyServerController) reset()
+//@   requires verify != nil
+//@   modifies verify.step
+//@   ensures verify.step == 0
+
+//@ func (verify *VerifyServerController) SharedKey() (k)
+//@   refines "github.com/brutella/hc/hap.PairVerifyHandler.SharedKey"
+//@   requires inv: verifyInv(verify)
+//@   ensures seq(k) == seq(verify.session.SharedKey)
+
+//@ func (verify *VerifyServerController) Handle(in) (out, err)
+//@   refines "github.com/brutella/hc/hap.PairVerifyHandler.Handle"
+//@   requires inv: verifyInv(verify)
+//@   requires in != nil
+//@   modifies verify.step, *verify.session
+//@   ensures inv: verifyInv(verify)
+//@   ensures answered: err == nil ==> out != nil && ref(out) > 0
+//@   ensures auth: err == nil && len(cval(out, 6)) > 0 && seqat(cval(out, 6), 0) == 4 && len(cval(out, 7)) == 0 ==> authOK(seq(verify.session.SharedKey))
+//@   ensures restart: len(cval(in, 0)) == 0 && len(cval(in, 6)) == 1 && seqat(cval(in, 6), 0) == 1 && old(verify.step) != 0 ==> err != nil && verify.step == 0
+
+//@ func (verify *VerifyServerController) handlePairVerifyStart(in) (out, err)
+//@   requires verifyInv(verify) && in != nil && verify.step == 0
+//@   modifies verify.step, *verify.session
+//@   ensures inv: verifyInv(verify)
+//@   ensures answered: err == nil ==> out != nil && ref(out) > 0 && len(cval(out, 6)) == 1 && seqat(cval(out, 6), 0) == 2
+
+//@ func (verify *VerifyServerController) handlePairVerifyFinish(in) (out, err)
+//@   requires verifyInv(verify) && in != nil && verify.step == 2
+//@   modifies verify.step
+//@   ensures inv: verify.step == 0 || verify.step == 4
+//@   ensures answered: err == nil ==> out != nil && ref(out) > 0
+//@   ensures auth: err == nil && len(cval(out, 7)) == 0 ==> authOK(seq(verify.session.SharedKey))
+
+// ---------------------------------------------------------------- pairings controller (C13)
+
+//@ func (c *PairingController) Handle(cont) (out, err)
+//@   requires c != nil && c.database != nil && cont != nil
+//@   modifies dbver(c.database), lastname(c.database), lastkey(c.database), dbhas, dbkey
+//@   ensures err == nil ==> out != nil
